@@ -106,6 +106,7 @@ deriving Repr, DecidableEq
 /-- `common.PrimeSqrt(a, pa)` for `0 ≤ a`, `pa` an odd prime. -/
 def primeSqrt (a pa : Nat) : SqrtResult :=
   if a = 0 then .root 0 else
+  if pa = 2 then .root (a % 2) else
   if powMod a (pa / 2) pa ≠ 1 then .noRoot else
   if pa % 4 = 3 then .root (powMod a (pa / 4 + 1) pa) else
   match findNonResidue pa 2 pa with
